@@ -17,6 +17,7 @@ RULE = ("generated domain expressions (tpmon.gen_geo, nesting <= 2 quick / 3 tho
         "parameter rows given in shuffled order) x query sets (box-uniform, near-boundary shells, own boundary samples); "
         "non-trivial = at least 20 query rows outside the tolerance band were compared; distinct = (expression shape, "
         "target interior/boundary, k class, parameter dependence)")
+RULE += '; an eighth of the cases make one membership call with 1100-5000 rows (forced constant polyhedra with 1100-2500 rows)'
 RULE += '; a sixth of the cases at length scales 0.01 / 0.05 / 30 / 300; every 40th case a 100-300 unit polyhedron with a user tolerance; every answer is re-queried with the columns stored differently (another variable / the parameters in front of or behind the coordinates)'
 REQUIRED_REACH = ["Circle._contains", "CircleBoundary._contains", "Parallelogram._contains", "ParallelogramBoundary._contains",
                   "Triangle._contains", "TriangleBoundary._contains", "Interval._contains", "IntervalBoundary._contains",
@@ -50,6 +51,11 @@ def gen_cases(seed, tier):
             kk_ = int(rng.choice([0, 0, 2]))
             dom = {"spec": sp, "rows": gen_geo.param_rows(rng, kk_), "k": kk_,
                    "info": {"kind": "prim", "dim": 3, "dep": False, "relations": ["user_tol"], "desc": "H~tol"}}
+        elif i % 40 == 33:
+            # a constant polyhedron (possibly a triangle soup) queried with one large call (see "nq" below)
+            sp = gen_geo.polyhedron(rng, rng.uniform(-2, 2, 3), float(rng.uniform(0.5, 1.5)))
+            dom = {"spec": sp, "rows": {}, "k": 0, "nq_big": int(rng.choice([1100, 1500, 2500])),
+                   "info": {"kind": "prim", "dim": 3, "dep": False, "relations": ["bigcall"], "desc": "H"}}
         elif i % 25 == 19:
             # a rotation with a constant angle / matrix about a pivot that moves with the parameter, several rows
             for _ in range(400):
@@ -85,6 +91,11 @@ def gen_cases(seed, tier):
                       "seed": int(rng.integers(0, 2 ** 31)), "nq": 300 if tier == "quick" else 600})
         if dom.get("equiv"):
             cases[-1]["equiv"] = dom["equiv"]
+        if dom.get("nq_big"):
+            cases[-1]["nq"] = dom["nq_big"]
+        elif len(cases) % 8 == 6:
+            # one membership call with more rows than typical block sizes of vectorised helpers
+            cases[-1]["nq"] = [1100, 1500, 2500, 5000 if "polyhedron" not in geo.spec_ops(dom["spec"]) else 2100][(len(cases) // 8) % 4]
     return cases
 
 
